@@ -40,6 +40,7 @@ from ..core.guards import GuardWalker, caught_by
 from ..core.index import EnumMember, Unfoldable, unparse, walk_no_nested
 from ..core.report import AnalysisError, Finding, RuleResult
 from . import _parser as P
+from . import _expand as X
 from . import c09
 
 EXPLANATION = (
@@ -712,9 +713,11 @@ def rule_r12(ctx) -> RuleResult:
     fname = "core.Wtp._finalize_expand"
     fn = ctx.fn(fname)
     subs = [c for c in walk_no_nested(fn) if isinstance(c, ast.Call) and isinstance(c.func, ast.Attribute) and c.func.attr == "sub"
-            and "MAGIC_RE" in unparse(c.func.value) and c.args and unparse(c.args[0]) == "magic_repl"]
+            and "MAGIC_RE" in unparse(c.func.value) and c.args]
     if not subs:
-        raise AnalysisError("_finalize_expand: MAGIC_RE_PATTERN.sub(magic_repl, ...) vanished")
+        raise AnalysisError("_finalize_expand: MAGIC_RE_PATTERN.sub(<replacer>, ...) vanished")
+    repl_name, repl = X.cookie_replacer(ctx)
+    repl_ref = unparse(subs[0].args[0])
     parents = ctx.index.mod("core").parents
     looped = False
     for c in subs:
@@ -728,12 +731,11 @@ def rule_r12(ctx) -> RuleResult:
                 cond_cmp = isinstance(n.test, ast.Compare) and isinstance(n.test.ops[0], ast.NotEq)
                 if brk or cond_cmp:
                     looped = True
-    repl = ctx.fn(fname + ".magic_repl")
     fmt_returns = [r for r in walk_no_nested(repl) if isinstance(r, ast.Return) and r.value is not None
                    and any(isinstance(c, ast.Call) and isinstance(c.func, ast.Attribute) and c.func.attr.startswith("_unexpanded_") for c in ast.walk(r.value))]
     all_recursive = bool(fmt_returns) and all(
         isinstance(r.value, ast.Call) and isinstance(r.value.func, ast.Attribute) and r.value.func.attr == "sub"
-        and r.value.args and unparse(r.value.args[0]) == "magic_repl" for r in fmt_returns)
+        and r.value.args and unparse(r.value.args[0]) == repl_ref for r in fmt_returns)
     if looped:
         rr.ok(fname, "substitution repeated until a pass changes nothing", {"formatter_returns": len(fmt_returns)})
     elif all_recursive:
